@@ -67,6 +67,7 @@ type World struct {
 	// incarnation: the "last observed node size" used when scaling from zero
 	LastSize map[int]v1.ResourceList
 
+	uidSeq  int
 	podSeq  map[int]int // per group, so that changes inside one group do not rename another group's objects
 	nodeSeq map[int]int
 	Scans   int
@@ -364,6 +365,11 @@ func (w *World) NewPod(s PodSpec) *v1.Pod {
 	} else {
 		p.Name = fmt.Sprintf("p%d-%04d", ag, w.podSeq[ag])
 	}
+	// like real pods: a UID and a creation time (pods usually exist before the node a scale-up
+	// brings for them)
+	w.uidSeq++
+	p.UID = types.UID(fmt.Sprintf("uid-%d", w.uidSeq))
+	p.CreationTimestamp = metav1.NewTime(time.Now().Truncate(time.Second))
 	p.Spec.NodeName = s.Node
 	switch {
 	case s.Finished:
@@ -574,8 +580,19 @@ func (w *World) Apply(a Action) (rec *ScanRecord, ok bool) {
 					}
 					np := w.NewPod(spec)
 					np.Name = p.Name
-					np.UID = types.UID(fmt.Sprintf("uid-%s-%d", p.Name, len(w.Log)))
 					w.Pods[i] = np
+				}
+			}
+		}
+	case "retargetPod": // a gated pod gets its nodeSelector / affinity set in place (same UID, same name)
+		if len(a.Names) == 1 && len(a.Pods) == 1 {
+			for i, p := range w.Pods {
+				if p.Name == a.Names[0] {
+					spec := a.Pods[0]
+					np := w.NewPod(spec)
+					keep := p.DeepCopy()
+					keep.Spec.NodeSelector, keep.Spec.Affinity = np.Spec.NodeSelector, np.Spec.Affinity
+					w.Pods[i] = keep
 				}
 			}
 		}
